@@ -49,6 +49,9 @@ type World struct {
 	entered    map[string]int
 	sqlDBObj   *PtrV
 	senderLog  []Value
+	warm       bool   // a warm-up request is running: no environment step, no faults, router: no match, sender: success
+	warmSave   [3]int
+	warmO2     string
 	envSteps   int
 	itoaSeen   []*Term
 	autoO2     string
@@ -66,6 +69,8 @@ type World struct {
 	durMs      map[int]*Term
 	tablesDropped, dbClosed int
 	removed    []*Term
+	grpcImpls  []Value // service implementations handed to grpc RegisterService, in order
+	sqlPool    map[string]*Term // connection pool settings made on the handle
 	sqlOpens   [][2]*Term // (driver, data source name) of every sql.Open
 	httpBuilt  *httpSent
 	httpSent   []*httpSent
